@@ -213,6 +213,7 @@ def run(ctx, model_ok=True, proofs_broken=False):
             lines.append("fn norm_uri %s %s" % (c if c.startswith("p=") and "," not in c else "p=IDS", hx(b"http://h" + (s if s.startswith(b"/") else b"/" + s) + b"?q=" + rng.choice(toks))))
         if rng.random() < 0.2:
             lines.append("fn urldecode %s %s" % (rng.choice(ucfgs), hx(b"n=" + s + b"&" + rng.choice(toks) + b"=v")))
+    lines += lib.load_fuzz_lines(("fn decode_path ", "fn pipeline ", "fn norm_uri ", "fn urldecode ", "fn urldecode_path ", "fn utf8_decode ", "fn normalize "))
     corpus = lib.load_corpus("C12")
     scripts = corpus + [[l] for l in lines]
     if model_ok:
